@@ -109,6 +109,28 @@ Theorem C16_total_ge_vram : forall gs m o,
 Proof. intros gs m o r Hok. destruct (estimate_bytes gs m o Hok) as (_ & H). exact H. Qed.
 Print Assumptions C16_total_ge_vram.
 
+(** ** the guard [r_ok] follows from a condition on the inputs alone: the sizes read from the file add up without
+    wrapping ([q_ok (prepare ..)], five explicit sums) and the explicit expression [demand gs m o] (overhead +
+    (GPUs+1) x (sum of minimums + first layer + projector + blocks x (sum of layer sizes) + output + graph) + ...)
+    is below 2^64 *)
+Theorem C16_no_wrap_below_2_64 : forall gs m o,
+  q_ok (prepare gs m o) = true -> demand gs m o < W -> r_ok (estimate gs m o) = true.
+Proof. exact estimate_nowrap. Qed.
+Print Assumptions C16_no_wrap_below_2_64.
+
+Theorem C16_bytes_below_2_64 : forall gs m o i,
+  let r := estimate gs m o in
+  q_ok (prepare gs m o) = true -> demand gs m o < W ->
+  (nth i (r_sizes r) 0 = 0 \/ nth i (r_sizes r) 0 + o_overhead o <= g_free (nth i gs gpu0)) /\
+  r_vram r <= r_total r /\ r_vram r = sum_x (r_sizes r).
+Proof.
+  intros gs m o i r Hq HD. pose proof (estimate_nowrap gs m o Hq HD) as Hok.
+  destruct (C16_per_gpu_bound gs m o i Hok) as (H1 & _).
+  destruct (C16_total_ge_vram gs m o Hok) as (H2 & H3 & _).
+  auto.
+Qed.
+Print Assumptions C16_bytes_below_2_64.
+
 (** ** 5. a model is declared to fit only if one library group places all of its layers (blocks + output), or, when
     the user capped the number of layers with num_gpu >= 0, exactly that many (and the cap is at most blocks + 1) *)
 Theorem C16_fit_sound : forall all m o v,
@@ -141,6 +163,9 @@ Example C16_guard_satisfiable :
   let r := estimate ex_gs ex_m ex_o in
   r_ok r = true /\ r_layers r = 5 /\ r_split r = [3; 0; 2] /\ r_sizes r = [2032; 0; 1024] /\ r_vram r = 3056 /\ r_total r = 3056.
 Proof. vm_compute. repeat split. Qed.
+
+Example C16_demand_satisfiable : q_ok (prepare ex_gs ex_m ex_o) = true /\ demand ex_gs ex_m ex_o < W.
+Proof. vm_compute. split; reflexivity. Qed.
 
 Example C16_fit_satisfiable : predict_server_fit (mkgpu 1 0 [99; 112; 117] [] :: ex_gs) ex_m ex_o = (true, 3056).
 Proof. vm_compute. reflexivity. Qed.
